@@ -245,6 +245,26 @@ def run_generic(ctx, prop, kind, algos, spec):
                     ctx.sample(case)
                 if ctx.too_many() or ctx.out_of_time():
                     return
+        elif spec["kind"] == "catsp":
+            # long species lineages (caterpillars of 10-14 leaves) with an expensive transfer: receivers many levels
+            # away, placements several levels above the LCA competing with a transfer
+            from rv.refmodel import trees as RT
+
+            rng = ctx.rng("catsp")
+            for k in range(spec["count"]):
+                ns = rng.randint(10, 14)
+                spl = [f"L{i}" for i in range(ns)]
+                Sn = RT.random_tree_shape(rng, spl, kind="cat")
+                no = rng.randint(3, 5)
+                Gn = RT.random_tree_shape(rng, gen.object_labels(no))
+                lm = {g: rng.choice(spl) for g in gen.object_labels(no)}
+                cost = {"spe": 0, "dup": rng.choice([1, 1, 2, 3]), "hgt": rng.choice([3, 5, 7, 9, 12]), "floss": rng.choice([1, 1, 2]), "sloss": rng.choice([0, 1, 1])}
+                case = {"kind": "super", "G": Gn, "S": Sn, "leafmap": lm, "costs": cost,
+                        "syn": gen.random_syntenies(rng, list(lm), 2, ordered=kind == "ordered", consistent_p=1.0), "algos": list(algos)}
+                check_case(ctx, prop, case, algos, hooks=hooks)
+                ctx.count("long_lineage_cases")
+                if ctx.too_many() or ctx.out_of_time():
+                    return
         elif spec["kind"] == "deep":
             rng = ctx.rng("deep")
             for k in range(spec["count"]):
